@@ -1074,8 +1074,9 @@ def _process_add_event_tick(
             continue
         wait_conditions = state.workers[step_name].collected_waiters
         for wait_condition in wait_conditions:
-            if wait_condition.resolved_event is not None:
-                # Already resolved; the step is being replayed to pick it up.
+            if wait_condition.resolved_event is not None or wait_condition.timed_out:
+                # Already resolved or timed out; the step is being replayed to
+                # pick up the event or raise the timeout.
                 continue
             is_match = type(tick.event) is wait_condition.waiting_for_event
             is_match = is_match and all(
